@@ -20,7 +20,70 @@ ASSUMPTIONS = ['formatting inside decorators is restricted to the simple {key} g
                'log output, real time and BaseException other than Exception subclasses are outside the observables']
 
 
+def catalogue():
+    strs = ['true', 'True', 'TRUE', 'tRuE', '1', '1.0', 'false', 'False', '0', '', ' true', 'true ', 'yes',
+            'on', '1.00', '01', 'None', '[]', '0.0', '2']
+    return [None, True, False, 0, 1, -1, 2, 0.0, 1.0, -0.5, [], [0], (), (0,), {}, {'a': 0}, set(), {1},
+            b'', b'\x00'] + strs
+
+
+def truth_table(env, res):
+    """Exhaustive truth table: every value kind the rule distinguishes x the ways of giving a decorator
+    value (cast_to_bool itself, literal, '{k}' expression, !py name). Monitor: the property's own rule."""
+    from .. import common
+    from ..common import enc, dec
+    from pypyr.utils.types import cast_to_bool
+    from pypyr.context import Context
+    drv = env.driver
+
+    def rule(v):     # the property text
+        if isinstance(v, str):
+            return v.lower() in ('true', '1', '1.0')
+        return bool(v)
+    for v in catalogue():
+        w = enc(v)
+        impl = cast_to_bool(v)
+        model = drv.ask('fmt.truth', v=w)['ok']
+        case = {'form': 'cast_to_bool', 'v': w}
+        res.case(case)
+        res.count('truth:cast_to_bool')
+        if impl != model:
+            res.mismatch(case, model, impl)
+        if impl != rule(v):
+            res.violation(case, f'cast_to_bool({v!r}) = {impl}, the truth rule says {rule(v)}',
+                          signature={'family': 'c04-truth', 'form': 'cast_to_bool', 'value': repr(v)})
+        for form, dv in (('literal', w), ('expr', '{k}'), ('py', {'py': {'n': 'k'}})):
+            if form == 'literal' and v is None:
+                continue
+            ctxw = {'d': [['k', w]]}
+            case = {'form': form, 'v': w}
+            ctx = Context(dec(ctxw))
+            try:
+                got = ctx.get_formatted_as_type(dec(dv), out_type=bool)
+                impl = {'ok': got}
+            except Exception as e:
+                got = None
+                impl = {'err': common.exc_name(e)}
+            try:
+                m = drv.ask('fmt.asbool', ctx=ctxw, v=dv)
+            except common.Reject:
+                res.count('truth:rejected')
+                continue
+            model = {'ok': m['ok']} if 'ok' in m else {'err': m['err']['name']}
+            res.case(case)
+            res.count('truth:' + form)
+            if impl != model:
+                res.mismatch(case, model, impl)
+            # strings by the string rule (after formatting, unless the result is already a bool);
+            # special tags and everything else by Python truthiness
+            want = bool(v) if form == 'py' else rule(v)
+            if got is not None and got != want:
+                res.violation(case, f'{form} decorator value {v!r} evaluates {got}, the truth rule says {want}',
+                              signature={'family': 'c04-truth', 'form': form, 'value': repr(v)})
+
+
 def run(env, res):
+    truth_table(env, res)
     res.rule = ('directed families (expectation from the property text) first, then seeded random pipelines '
                 '(1-3 pipelines, 1-4 groups, 0-4 steps per group, decorators with p~0.25 each); a case is '
                 'non-trivial when the model accepts it and it terminates; distinct by canonical program text')
